@@ -10,7 +10,9 @@ import (
 	"encoding/xml"
 	"fmt"
 	"io"
+	"mime"
 	"reflect"
+	"strings"
 	"strconv"
 	"testing"
 
@@ -22,7 +24,7 @@ import (
 )
 
 const rule = "case = options (Charset, JSONIndent, XMLIndent; or none) x Renderer placed as application middleware, group handler or route handler x 1..3 later handlers of which one renders x a render call: JSON of a randomly nested value (maps, slices, strings with <>&, numbers, booleans, null) or of a tagged struct, XML of a struct with attributes, nested, optional and repeated elements, Binary of arbitrary bytes, PlainText of arbitrary text, with a status in 100..999, for GET / POST / HEAD; optionally the rendering handler first serves a nested request through the same application (which renders something else) before rendering its own response. " +
-	"Oracle: the spy writer got exactly the given status once and before the body; Content-Type is the documented string with the configured (default utf-8) charset; Binary / PlainText bodies are verbatim; the JSON body is valid JSON laid out with the configured indentation and json.Unmarshal of it is DeepEqual to the value; the XML body equals xml.MarshalIndent and decodes into an equal struct; every handler after the middleware receives a Render. " +
+	"Oracle: the spy writer got exactly the given status once and before the body; Content-Type is the documented media type with the configured (default utf-8) charset; Binary / PlainText bodies are verbatim; the JSON body is valid JSON laid out with the configured indentation and json.Unmarshal of it is DeepEqual to the value; the XML body decodes into an equal struct and is indented iff an indentation is configured; every handler after the middleware receives a Render. " +
 	"non-trivial = a non-200 status, a non-default option, a value nested >= 2 deep, a nested request, or a HEAD request; distinct by case text"
 
 var assumptions = []string{
@@ -194,8 +196,12 @@ func checkCase(c Case) (out evid.Outcome) {
 		wantCT = "text/plain; charset=" + charset
 		wantBody = []byte(c.raw())
 	}
-	if ct := spy.H.Get("Content-Type"); ct != wantCT {
-		return evid.Fail("content-type", "Content-Type %q, want %q; %s", ct, wantCT, desc)
+	// the matching media type with the configured charset; how the header is
+	// spelled (blanks, case of the parameter name) is not fixed by the statement
+	gotType, gotParams, perr := mime.ParseMediaType(spy.H.Get("Content-Type"))
+	wantType, wantParams, _ := mime.ParseMediaType(wantCT)
+	if perr != nil || gotType != wantType || !strings.EqualFold(gotParams["charset"], wantParams["charset"]) {
+		return evid.Fail("content-type", "Content-Type %q, want %q; %s", spy.H.Get("Content-Type"), wantCT, desc)
 	}
 	if c.Method == "HEAD" {
 		wantBody = nil
@@ -220,6 +226,21 @@ func checkCase(c Case) (out evid.Outcome) {
 			}
 		} else if len(spy.Body) != 0 {
 			return evid.Fail("body", "HEAD request got a body %q; %s", clip(spy.Body), desc)
+		}
+	} else if c.Kind == "xml" {
+		// decoded below; here only the layout: indented iff an indentation is configured
+		if c.Method == "HEAD" {
+			if len(spy.Body) != 0 {
+				return evid.Fail("body", "HEAD request got a body %q; %s", clip(spy.Body), desc)
+			}
+		} else {
+			indented := bytes.Contains(spy.Body, []byte("\n"+xmlIndent+"<")) && xmlIndent != ""
+			if xmlIndent != "" && !indented {
+				return evid.Fail("xml-indent", "the XML body %q is not indented with %q; %s", clip(spy.Body), xmlIndent, desc)
+			}
+			if xmlIndent == "" && bytes.Contains(spy.Body, []byte(">\n")) {
+				return evid.Fail("xml-indent", "the XML body %q is indented although no indentation is configured; %s", clip(spy.Body), desc)
+			}
 		}
 	} else if !bytes.Equal(spy.Body, wantBody) {
 		return evid.Fail("body", "body %q, want %q; %s", clip(spy.Body), clip(wantBody), desc)
@@ -410,7 +431,7 @@ func genCase(t *rapid.T) Case {
 }
 
 func TestProp(t *testing.T) {
-	evid.Rapid(t, "render", 4000, 60000, func(t *rapid.T) {
+	evid.Rapid(t, "render", 4000, 200000, func(t *rapid.T) {
 		c := genCase(t)
 		evid.Run(t, "render", c, func() evid.Outcome { return checkCase(c) })
 	})
